@@ -38,7 +38,7 @@ Definition run_cli (cmd : text) (args : list bytes) : option text :=
     let content := lookup_content files in
     let c := {| c_ext := ext; c_rev := N.testbit fl 0; c_hex := N.testbit fl 1 |} in
     let pc := {| allow_plugins := N.testbit fl 2 |} in
-    let s := if (mode =? 3) || (mode =? 4) || (mode =? 5) then
+    let s := if (mode =? 3) || (mode =? 4) || (mode =? 5) || (mode =? 6) || (mode =? 7) then
                {| every := every s; term := term s; svc := svc s; nsvc := nsvc s; hid := hid s; only := only s; sevs := sevs s; lookup := true |}
              else s in
     let d := decoders_of env0 pc s in
@@ -51,6 +51,8 @@ Definition run_cli (cmd : text) (args : list bytes) : option text :=
         | Some pid => Some (mode_selected_list d c (plid_names d c pid content names) content)
         | None => None
         end
+      else if mode =? 6 then mode_id d (c_hex c) extra content names
+      else if mode =? 7 then Some (mode_bmcid d (decode_obmc env0) (c_hex c) extra content names)
       else if mode =? 4 then Some (mode_selected_list d c (src_names d c (Some extra) None content names) content)
       else Some (mode_selected_list d c (src_names d c None (Some extra) content names) content) in
     Some (render (match out with Some o => render_stdout o | None => JObj [(L "exit", JStr (L "Invalid length of ID is provided!"))] end))
